@@ -1,7 +1,9 @@
 --------------------------- MODULE Carriers_Trace ---------------------------
 (* Code -> spec for C14.  Events:                                               *)
-(*   "carrier"  the outcomes of unmarshal(T, c(s)) for the five carriers of one *)
-(*              text: all equal (as value terms) or all raised                  *)
+(*   "carrier"  the outcomes of unmarshal(T, c(s)) for the eight carriers of    *)
+(*              one text: all equal (as value terms) or all raised; the         *)
+(*              carrier objects survive (InputIntact) and give the same         *)
+(*              outcome when handed over again (Again)                          *)
 (*   "load"     serdes.load / strload / decode of one input, with the stdlib    *)
 (*              facts about its text (json.loads, ast.literal_eval)             *)
 (*   "texteq"   unmarshal(T, json text) = unmarshal(T, literal text)            *)
@@ -16,11 +18,14 @@ AllRaised(outs) == \A i \in 1..Len(outs) : outs[i].k = "raised"
 
 Clause(e) ==
   CASE e.ev = "carrier" ->
-         (IF AllRaised(e.outs) THEN ""
+         (IF ~e.intact THEN "Carrier.inputNotIntact"
+          ELSE IF ~e.again THEN "Carrier.sameObjectAgainDiffers"
+          ELSE IF AllRaised(e.outs) THEN ""
           ELSE IF \E i \in 1..Len(e.outs) : e.outs[i].k = "raised" THEN "CarrierFree.someReject"
           ELSE IF ~AllSame(e.outs) THEN "CarrierFree.differ" ELSE "")
     [] e.ev = "load" ->
-         (IF ~e.text THEN (IF e.out.k = "ok" /\ e.same THEN "" ELSE "Load.nonTextNotUntouched")
+         (IF ~e.intact THEN "Carrier.inputNotIntact"
+          ELSE IF ~e.text THEN (IF e.out.k = "ok" /\ e.same THEN "" ELSE "Load.nonTextNotUntouched")
           ELSE IF e.isjson THEN (IF e.out.k = "ok" /\ e.out.r = e.json THEN "" ELSE "Load.jsonTextNotDecodedAsJson")
           ELSE IF ~e.isliteral THEN
                (IF e.out.k = "raised" THEN "Load.plainTextRaised"
